@@ -36,6 +36,7 @@ struct Resp {
   int framing = 0;  // 0 Content-Length, 1 chunked, 2 close-delimited, 3 no framing header
   int cl_zeros = 0;
   size_t frame_pos = 0;
+  int both_cl = -1;  // chunked response which ALSO carries a Content-Length (a sender must not; a recipient lets Transfer-Encoding win or rejects): -1 no, else bit0 = CL after TE, bits 1.. = which value
   std::string body;
   std::vector<Chunk> chunks;
   std::vector<Hdr> trailers;
@@ -99,6 +100,10 @@ struct Built {
 static void put_headers(std::string &w, const std::vector<Hdr> &hs) {
   for (auto &h : hs) w += h.name + ":" + h.pre + h.value + h.post + "\r\n";
 }
+static std::string both_cl_value(const Resp &r) {
+  int k = r.both_cl >> 1;
+  return k % 3 == 0 ? std::to_string(r.body.size()) : k % 3 == 1 ? "3" : std::to_string(r.body.size() + 7 * r.chunks.size() + 5);
+}
 static void serialise(Built &b) {
   Resp &r = b.resp;
   std::string &w = b.wire;
@@ -121,8 +126,11 @@ static void serialise(Built &b) {
         std::string v = std::string((size_t)r.cl_zeros, '0') + std::to_string(r.body.size());
         b.clvalue = {w.size(), v.size()};
         w += v + "\r\n";
-      } else if (r.framing == 1)
+      } else if (r.framing == 1) {
+        if (r.both_cl >= 0 && !(r.both_cl & 1)) w += "Content-Length: " + both_cl_value(r) + "\r\n";
         w += "Transfer-Encoding: chunked\r\n";
+        if (r.both_cl >= 0 && (r.both_cl & 1)) w += "Content-Length: " + both_cl_value(r) + "\r\n";
+      }
     }
     if (i < r.hdrs.size()) w += r.hdrs[i].name + ":" + r.hdrs[i].pre + r.hdrs[i].value + r.hdrs[i].post + "\r\n";
   }
@@ -188,6 +196,7 @@ static Built build(const Case &c) {
       r.framing = (int)U(0, 0, 3);
       r.cl_zeros = (int)U(1, 0, 8);
       r.frame_pos = (size_t)U(2, 0, 100);
+      r.both_cl = A(3) > 0 ? (int)U(3, 1, 12) - 1 : -1;
     } else if (op.k == "b") {
       r.body = prbytes((uint64_t)A(1), (size_t)U(0, 0, 4 << 20));
     } else if (op.k == "ch" && r.chunks.size() < 5000) {
@@ -286,6 +295,7 @@ struct Plan {
   int64_t cancel_at = -1;
   int connect_kind = CB_OK_NOW;
   int64_t connect_delay = 0;
+  std::vector<std::array<int64_t, 3>> outs;  // how the kernel takes the request bytes: {type, n, delay}
   int want_fd = -1;  // descriptor number the connection's socket() call returns (-1: the kernel's next free one)
   bool hold = true;
 };
@@ -296,6 +306,14 @@ static void on_socket(int fd) {
   Sock *s = k.get(fd);
   const Plan &p = *PL;
   if (p.hold) s->in_hold_sent = g_reqlen;
+  for (auto &ou : p.outs) {
+    OutItem it;
+    it.t = (int)ou[0];
+    it.n = (size_t)ou[1];
+    it.delay = ou[2];
+    it.err = EAGAIN;
+    k.push_out(fd, it);
+  }
   size_t off = 0, si = 0, items = 0;
   while (off < p.wire.size()) {
     std::array<int64_t, 3> sg = p.segs.empty() ? std::array<int64_t, 3>{0, 0, 0} : p.segs[si % p.segs.size()];
@@ -332,6 +350,11 @@ static void on_socket(int fd) {
   }
 }
 
+static int g_sentinel;
+static int sentinel_cb(void *) {
+  g_sentinel = 1;
+  return 0;
+}
 // Runs the request; fills g.  Returns the sim fd used (or -1).
 static void run_request(const Request &rq, Plan &p, Got &g) {
   K().reset();
@@ -394,6 +417,20 @@ static void run_request(const Request &rq, Plan &p, Got &g) {
         }
       }
       if (!g.callbacks && !g.cancelled && !X->failed) X->fail("livelock", "request neither completed nor failed within 200000 loop turns");
+      // the loop runs on for a while: whatever the library left registered gets its chance to fire on the finished request
+      if (!X->failed) {
+        g_sentinel = 0;
+        void *st = shim_timer_register(sentinel_cb, nullptr, 0, 20000);
+        for (int i = 0; i < 200 && st && !g_sentinel && !X->failed; i++) {
+          K().stuck = false;
+          int rc = shim_events_run();
+          if (rc != 0) {
+            X->fail("events-run-error-after-end", "events_run returned " + std::to_string(rc) + " while the loop ran on after the request had ended");
+            break;
+          }
+        }
+        if (st && !g_sentinel) shim_timer_cancel(st);
+      }
       if (g.timer) {
         shim_timer_cancel(g.timer);
         g.timer = nullptr;
@@ -447,6 +484,9 @@ static void parse_common(const Case &c, Plan &p, size_t bodylen) {
     } else if (op.k == "conn") {
       p.connect_kind = (A(0) & 1) ? CB_ASYNC_OK : CB_OK_NOW;
       p.connect_delay = std::min<int64_t>(std::max<int64_t>(A(1), 0), 1000000);
+    } else if (op.k == "out" && p.outs.size() < 40) {
+      static const int T[] = {OUT_ACCEPT, OUT_ACCEPT, OUT_EAGAIN, OUT_EINTR, OUT_BLOCK};
+      p.outs.push_back({T[(size_t)(((A(0) % 5) + 5) % 5)], std::min<int64_t>(std::max<int64_t>(A(1), 1), 100000), std::min<int64_t>(std::max<int64_t>(A(2), 0), 2000000)});
     } else if (op.k == "fd") {
       static const int FDS[] = {0, 1, 2, 3, 7, 39, 255, 256, 1023, 1024, 5000};
       p.want_fd = FDS[(size_t)(((A(0) % 11) + 11) % 11)];
@@ -503,6 +543,8 @@ static Outcome run_c09(const Case &c) {
     char m[400];
     if (g.cancelled)
       x.fail("response-never-completed", "the whole well-formed response was delivered but the callback was never invoked (client waits for ever)");
+    else if (g.is_null && r.framing == 1 && r.both_cl >= 0)
+      x.cls.insert("cl+te-rejected");  // a recipient may treat Content-Length next to Transfer-Encoding as an error; what it must not do is deliver a wrong body
     else if (g.is_null)
       x.fail("valid-response-rejected", "callback got NULL (failure) for a well-formed response");
     else if (g.status != r.status) {
@@ -515,7 +557,12 @@ static Outcome run_c09(const Case &c) {
       for (size_t i = 0; i <= r.hdrs.size(); i++) {
         if (i == fp) {
           if (r.framing == 0) eh.push_back({"Content-Length", std::string((size_t)r.cl_zeros, '0') + std::to_string(r.body.size())});
-          if (r.framing == 1) eh.push_back({"Transfer-Encoding", "chunked"});
+          if (r.framing == 1) {
+            if (r.both_cl >= 0 && !(r.both_cl & 1)) eh.push_back({"Content-Length", both_cl_value(r)});
+            eh.push_back({"Transfer-Encoding", "chunked"});
+            if (r.both_cl >= 0 && (r.both_cl & 1)) eh.push_back({"Content-Length", both_cl_value(r)});
+            if (r.both_cl >= 0) x.cls.insert("content-length-next-to-chunked");
+          }
         }
         if (i < r.hdrs.size()) eh.push_back({r.hdrs[i].name, r.hdrs[i].value});
       }
@@ -585,7 +632,7 @@ static void gen_response_ops(Case &c, int tier, bool hostile) {
     c.push_back(Op("h", {*rc::gen::arbitrary<int>(), *range<int>(0, 20), *range<int>(0, 2), *rc::gen::weightedOneOf<int>({{2, rc::gen::just(0)}, {5, range<int>(1, 30)}, {1, range<int>(100, 300)}}),
                          *range<int>(0, 5), *range<int>(0, 5)}));
   int framing = *rc::gen::weightedElement<int>({{4, 0}, {6, 1}, {3, 2}, {1, 3}});
-  c.push_back(Op("fr", {framing, *rc::gen::weightedElement<int>({{4, 0}, {1, 1}, {1, 5}}), *range<int>(0, nh)}));
+  c.push_back(Op("fr", {framing, *rc::gen::weightedElement<int>({{4, 0}, {1, 1}, {1, 5}}), *range<int>(0, nh), (framing == 1 && !hostile && *range<int>(0, 11) == 0) ? *range<int>(1, 12) : 0}));
   int64_t maxbody = tier ? 300000 : 70000;
   int64_t bl = *rc::gen::weightedOneOf<int64_t>({{2, rc::gen::just<int64_t>(0)}, {5, range<int64_t>(1, 100)}, {3, range<int64_t>(100, 5000)},
                                                  {2, rc::gen::elementOf(std::vector<int64_t>{4094, 4095, 4096, 4097, 4098, 8192})}, {1, range<int64_t>(5000, maxbody)}});
@@ -620,7 +667,13 @@ static void gen_response_ops(Case &c, int tier, bool hostile) {
   }
   c.push_back(Op("end", {*rc::gen::weightedElement<int>({{3, 0}, {2, 1}, {hostile ? 1 : 0, 2}})}));
   c.push_back(Op("conn", {*range<int>(0, 1), *rc::gen::elementOf(std::vector<int64_t>{0, 1, 1000, 30000})}));
-  if (*range<int>(0, 4) == 0) c.push_back(Op("fd", {*range<int>(0, 10)}));  // the process may have closed its standard descriptors
+  if (*range<int>(0, 4) == 0) c.push_back(Op("fd", {*range<int>(0, 10)}));
+  if (*range<int>(0, 2) == 0) {  // the kernel takes the request in pieces
+    int no = *range<int>(1, 8);
+    for (int i = 0; i < no; i++)
+      c.push_back(Op("out", {*range<int>(0, 4), *rc::gen::weightedOneOf<int64_t>({{3, range<int64_t>(1, 30)}, {2, range<int64_t>(30, 600)}, {1, range<int64_t>(600, 9000)}}),
+                             *rc::gen::elementOf(std::vector<int64_t>{0, 1, 1000, 50000})}));
+  }  // the process may have closed its standard descriptors
 }
 
 static rc::Gen<Case> gen_c09(int tier) {
@@ -765,7 +818,7 @@ static Outcome run_c08(const Case &c0) {
   for (auto &op : c)
     if (op.k == "hold") p.hold = true;
   for (auto &op : c)
-    if (op.k == "connfail") p.connect_kind = CB_ASYNC_FAIL;
+    if (op.k == "connfail") p.connect_kind = (!op.a.empty() && (op.a[0] & 1)) ? CB_FAIL_NOW : CB_ASYNC_FAIL;
   Got g;
   run_request(b.req, p, g);
   if (!x.failed && g.callbacks && !g.is_null) {
@@ -814,7 +867,11 @@ static rc::Gen<Case> gen_c08(int tier) {
       c.push_back(Op("mut", {kind, *rc::gen::arbitrary<int>() & 0x7fffffff, arg}));
     }
     if (*range<int>(0, 9) == 0) c.push_back(Op("cancel", {*rc::gen::elementOf(std::vector<int64_t>{0, 1, 1000, 30000, 2000000})}));
-    if (*range<int>(0, 30) == 0) c.push_back(Op("connfail"));
+    if (*range<int>(0, 20) == 0) {
+      // the connection attempt fails, later or at once; cancelling at once then meets a failure that is already queued for delivery
+      c.push_back(Op("connfail", {*range<int>(0, 1)}));
+      if (*range<int>(0, 1)) c.push_back(Op("cancel", {0}));
+    }
     if (*range<int>(0, 2) == 0) c.push_back(Op("hold"));
     return c;
   });
